@@ -1,6 +1,7 @@
 """C06 -- backmapping places rigid, centred, same-handed copies of the residue template."""
 from vlib.framework import PUnit, LUnit, BUnit
 from contracts import linalg as L
+from contracts import backmap as BM
 from bounded import b_backmap
 
 
@@ -9,5 +10,6 @@ def build(tier, seed):
         PUnit("matrix-product", [L.MATMUL], L.REG),
         PUnit("rotate-xyz", [L.ROTATE], L.REG),
         LUnit("proper-rotation", L.lemma_proper_rotation),
+        PUnit("place-init-coords", BM.CONTRACTS, BM.REG),
     ] + list(b_backmap.UNITS)
     return {"units": units, "level": "other", "notes": "pyvc"}
